@@ -6,7 +6,9 @@ package main
 
 import (
 	"fmt"
+	"go/constant"
 	"go/token"
+	"go/types"
 	"sort"
 	"strings"
 
@@ -14,7 +16,7 @@ import (
 )
 
 func init() {
-	register(&Rule{ID: "E-ELEMTESTS", Props: []string{"C13", "C02", "C08"}, Floor: 3,
+	register(&Rule{ID: "E-ELEMTESTS", Props: []string{"C13", "C02", "C08", "C15"}, Floor: 3,
 		Doc: "by interpretation of sortArray, arrayMax and arrayMin on arrays of up to two elements: on every path that returns a result, every element of the array passed the string test or the number test on that path (no element reaches the ordering unvalidated, whatever the length of the array)",
 		Run: ruleEElemTests})
 	register(&Rule{ID: "E-EXTREMES", Props: []string{"C13", "C11", "C02"}, Floor: 2,
@@ -493,4 +495,291 @@ func ruleEDirection(p *Program, r *Reporter) {
 
 func dirName(d string) string {
 	return map[string]string{"L": "the start of the string", "R": "the end of the string", "B": "both ends of the string"}[d]
+}
+
+// ---------------------------------------------------------------- E-EACH-ONCE
+
+func init() {
+	register(&Rule{ID: "E-EACH-ONCE", Props: []string{"C13", "C09", "C02", "C01", "C17"}, Floor: 6,
+		Doc: "by interpretation of the helpers that apply an expression to every element of an array (max_by, min_by, sort_by, group_by, map, the array projections): on every path that returns a result, the expression was evaluated against every element of the array exactly once (a loop that stops one element short misses the last key, one that starts one element early evaluates a key twice, which doubles the work per nesting level)",
+		Run: ruleEEachOnce})
+	register(&Rule{ID: "E-CONTAINER-KIND", Props: []string{"C12", "C01", "C18"}, Floor: 6,
+		Doc: "by interpretation of the selectors that turn an array into an array (slice, stepped slice, flatten, bare wildcard, the array projections): on every path on which the subject is an array and a result is returned without error, the result is an array (never a string or another scalar, which the next selector would treat differently); the string forms of the two slice helpers return strings",
+		Run: ruleEContainerKind})
+}
+
+func ruleEEachOnce(p *Program, r *Reporter) {
+	d := newValDom(p)
+	if d.why != "" {
+		r.Unknown(token.NoPos, "evaluator model", d.why)
+		return
+	}
+	d.toDecimal = numericRoles(p).toDecimal
+	d.opaqueSort = true
+	// (helper, must every element be evaluated?) — a projection may apply its right-hand side without the recursive
+	// evaluation (a fast path for a plain field), so only "never twice" is required of it; that it looks at every element
+	// is E-EXHAUST's clause
+	for _, job := range []struct {
+		name string
+		all  bool
+	}{{"arrayMaxBy", true}, {"arrayMinBy", true}, {"sortArrayBy", true}, {"groupBy", true}, {"mapArray", true}, {"projectArray", false}, {"filter", true}, {"filterAndProjectArray", false}} {
+		fn := producerFunc(p, job.name)
+		if fn == nil {
+			r.Unknown(token.NoPos, "evaluator."+job.name, "helper not found")
+			continue
+		}
+		key := "evaluator." + job.name + " evaluates each element once"
+		vr, why := d.run(fn, 3, nil)
+		if why != "" {
+			r.Unknown(fn.Pos(), key, why)
+			continue
+		}
+		paths, evals := 0, 0
+		bad := ""
+		var badPos token.Pos
+		for _, o := range vr.outs {
+			if o.Cut || o.Panic || o.Ret == nil || len(o.Res) == 0 || (vr.errIdx >= 0 && !isDefNil(o.Res[vr.errIdx])) {
+				continue
+			}
+			as, k, ok := vr.subjectArray(o.St)
+			if !ok {
+				continue
+			}
+			paths++
+			// evaluations per (node, element)
+			count := map[string]int{}
+			perElem := map[int64]int{}
+			for _, ev := range o.St.Trace {
+				if ev.Kind != "eval" || len(ev.Args) < 2 {
+					continue
+				}
+				for i := int64(0); i < k; i++ {
+					if avKey(ev.Args[1]) == avKey(elemSym(as, i)) {
+						count[avKey(ev.Args[0])+"@"+fmt.Sprint(i)]++
+						perElem[i]++
+						evals++
+					}
+				}
+			}
+			for ke, n := range count {
+				if n > 1 && bad == "" {
+					bad, badPos = fmt.Sprintf("an array of %d element(s): one expression is evaluated %d times against the same element (%s)", k, n, ke[strings.LastIndex(ke, "@")+1:]), o.Ret.Pos()
+				}
+			}
+			if job.all {
+				for i := int64(0); i < k; i++ {
+					if perElem[i] == 0 && bad == "" {
+						bad, badPos = fmt.Sprintf("an array of %d element(s) yields a result on a path that never evaluated the expression against element %d", k, i), o.Ret.Pos()
+					}
+				}
+			}
+		}
+		switch {
+		case bad != "":
+			r.Bad(badPos, key, bad)
+		case evals == 0:
+			r.Unknown(fn.Pos(), key, fmt.Sprintf("no result path evaluates the expression against an element (%d paths)", paths))
+		default:
+			r.OK(fn.Pos(), key, fmt.Sprintf("%d result paths over arrays of up to 2 elements, %d evaluations: every element exactly once per expression", paths, evals))
+		}
+	}
+}
+
+func ruleEContainerKind(p *Program, r *Reporter) {
+	d := newValDom(p)
+	if d.why != "" {
+		r.Unknown(token.NoPos, "evaluator model", d.why)
+		return
+	}
+	for _, name := range []string{"slice", "sliceStep", "flatten", "pruneArray", "projectArray", "filter", "filterAndProjectArray", "flattenAndProjectArray"} {
+		fn := producerFunc(p, name)
+		if fn == nil {
+			r.Unknown(token.NoPos, "evaluator."+name, "selector helper not found")
+			continue
+		}
+		key := "evaluator." + name + " kind of the result"
+		vr, why := d.run(fn, 2, nil)
+		if why != "" {
+			r.Unknown(fn.Pos(), key, why)
+			continue
+		}
+		arrays, strs := 0, 0
+		bad := ""
+		var badPos token.Pos
+		for _, o := range vr.outs {
+			if o.Cut || o.Panic || o.Ret == nil || len(o.Res) == 0 || (vr.errIdx >= 0 && !isDefNil(o.Res[vr.errIdx])) {
+				continue
+			}
+			passed, _ := o.St.subjectTests(vr.subject)
+			isArr, isStr := false, false
+			for _, t := range passed {
+				isArr = isArr || t == "[]any"
+				isStr = isStr || t == "string"
+			}
+			res := o.Res[0]
+			if isDefNil(res) || (!isArr && !isStr) {
+				continue
+			}
+			kind := resultKind(res)
+			switch {
+			case isArr && kind == "array":
+				arrays++
+			case isStr && (kind == "string" || kind == "value"):
+				strs++ // a string, or the right-hand side applied to the string as a whole
+			case kind == "unknown":
+				// not decided
+			case isArr && bad == "":
+				bad, badPos = fmt.Sprintf("the subject is an array and the result is %s (%s): the selectors that follow would see a %s, not an array", kind, renderVal(res), kind), o.Ret.Pos()
+			case isStr && bad == "":
+				bad, badPos = fmt.Sprintf("the subject is a string and the result is %s (%s)", kind, renderVal(res)), o.Ret.Pos()
+			}
+		}
+		switch {
+		case bad != "":
+			r.Bad(badPos, key, bad)
+		case arrays == 0:
+			r.Unknown(fn.Pos(), key, "no path over an array subject returns a result whose kind is known")
+		default:
+			r.OK(fn.Pos(), key, fmt.Sprintf("%d result paths over an array return an array, %d over a string return a string", arrays, strs))
+		}
+	}
+}
+
+// resultKind: "array", "string", "value" (the result of a recursive evaluation), another kind, or "unknown".
+func resultKind(v AV) string {
+	switch x := v.(type) {
+	case avIface:
+		switch x.dyn.Underlying().(type) {
+		case *types.Slice:
+			return "array"
+		case *types.Map:
+			return "object"
+		case *types.Basic:
+			if x.dyn.Underlying().(*types.Basic).Info()&types.IsString != 0 {
+				return "string"
+			}
+			return "scalar"
+		}
+		return resultKind(x.v)
+	case avSlice:
+		return "array"
+	case avConst:
+		if x.v.Kind() == constant.String {
+			return "string"
+		}
+		return "scalar"
+	case avSym:
+		switch {
+		case x.tag == "val":
+			return "value"
+		case x.tag == "subject":
+			return "unknown"
+		case strings.HasPrefix(x.tag, "asserted:[]"):
+			return "array"
+		case strings.HasPrefix(x.tag, "asserted:string"):
+			return "string"
+		case x.tag == "slice":
+			if t, ok := x.payload.(avTuple); ok && len(t) > 0 {
+				return resultKind(t[0])
+			}
+			return resultKind(x.payload)
+		}
+	}
+	return "unknown"
+}
+
+// ---------------------------------------------------------------- E-COERCION-TABLE
+
+func init() {
+	register(&Rule{ID: "E-COERCION-TABLE", Props: []string{"C08", "C02", "C14"}, Floor: 16,
+		Doc: "the integer-argument coercion (value, isNumber, isInteger), by interpretation on a value of each dynamic type: for each of the 13 numeric carriers every path reports isNumber = true (a number that is not an integer in range is an invalid value, never an invalid type), for null, booleans, strings, arrays, objects and foreign values every path reports (isNumber, isInteger) = (false, false); json.Number may report false when its text does not parse",
+		Run: ruleECoercionTable})
+}
+
+func ruleECoercionTable(p *Program, r *Reporter) {
+	toInt := numericRoles(p).toInt
+	if toInt == nil {
+		r.Unknown(token.NoPos, "toInt", "integer coercion helper func(any) (int, bool, ...) not found: "+numericRoles(p).why)
+		return
+	}
+	if toInt.Signature.Results().Len() != 3 {
+		r.Trivial(toInt.Pos(), "toInt table", "the coercion has no separate is-a-number result")
+		return
+	}
+	type kind struct {
+		name   string
+		t      types.Type
+		number string // "yes", "no", "maybe"
+	}
+	anyT := types.NewInterfaceType(nil, nil)
+	kinds := []kind{
+		{"nil", nil, "no"},
+		{"bool", types.Typ[types.Bool], "no"},
+		{"string", types.Typ[types.String], "no"},
+		{"[]any", types.NewSlice(anyT), "no"},
+		{"map[string]any", types.NewMap(types.Typ[types.String], anyT), "no"},
+		{"other (foreign Go value)", types.NewStruct(nil, nil), "no"},
+	}
+	for _, b := range []types.BasicKind{types.Int, types.Int8, types.Int16, types.Int32, types.Int64, types.Uint, types.Uint8, types.Uint16, types.Uint32, types.Uint64, types.Float32, types.Float64} {
+		kinds = append(kinds, kind{types.Typ[b].Name(), types.Typ[b], "yes"})
+	}
+	for _, f := range p.Funcs {
+		if isRole(f, "toDecimal") {
+			kinds = append(kinds, kind{"decimal128.Decimal", f.Signature.Results().At(0).Type(), "yes"})
+			break
+		}
+	}
+	if jn := lookupNamed(p, "encoding/json", "Number"); jn != nil {
+		kinds = append(kinds, kind{"json.Number", jn, "maybe"})
+	}
+	for _, k := range kinds {
+		key := "toInt(" + k.name + ")"
+		e := newEngine(p, scopeDom{})
+		e.MaxVisits = 2
+		st := e.WithInit(toInt.Pkg, newState())
+		var arg AV = avNil{}
+		if k.t != nil {
+			arg = avIface{dyn: k.t, v: avSym{id: e.fresh(), tag: "v"}}
+		}
+		outs := e.Run(toInt, []AV{arg}, st)
+		if e.Aborted != "" {
+			r.Unknown(toInt.Pos(), key, "path enumeration aborted: "+e.Aborted)
+			continue
+		}
+		paths := 0
+		bad := ""
+		var badPos token.Pos
+		for _, o := range outs {
+			if o.Panic {
+				bad, badPos = "a path panics", toInt.Pos()
+				continue
+			}
+			if o.Cut || o.Ret == nil || len(o.Res) != 3 {
+				continue
+			}
+			paths++
+			isNum, okN := o.Res[1].(avConst)
+			isInt, okI := o.Res[2].(avConst)
+			numV := okN && isNum.v.Kind() == constant.Bool && constant.BoolVal(isNum.v)
+			intV := okI && isInt.v.Kind() == constant.Bool && constant.BoolVal(isInt.v)
+			switch {
+			case !okN && bad == "":
+				bad, badPos = "isNumber is "+renderVal(o.Res[1])+" on a path: not decided by the type of the value", o.Ret.Pos()
+			case k.number == "yes" && !numV && bad == "":
+				bad, badPos = "a value of this numeric kind is reported as not a number on a path: a number that is not an integer in range is an invalid value, not an invalid type", o.Ret.Pos()
+			case k.number == "no" && (numV || intV || !okI) && bad == "":
+				bad, badPos = "a value that is not a number is reported as (isNumber, isInteger) = ("+renderVal(o.Res[1])+", "+renderVal(o.Res[2])+")", o.Ret.Pos()
+			case !numV && intV && bad == "":
+				bad, badPos = "a path reports an integer that is not a number", o.Ret.Pos()
+			}
+		}
+		switch {
+		case bad != "":
+			r.Bad(badPos, key, bad)
+		case paths == 0:
+			r.Unknown(toInt.Pos(), key, "no path returns")
+		default:
+			r.OK(toInt.Pos(), key, fmt.Sprintf("%d paths, isNumber is %s on every one", paths, map[string]string{"yes": "true", "no": "false", "maybe": "decided by whether the text parses"}[k.number]))
+		}
+	}
 }
